@@ -206,15 +206,23 @@ func (w *World) opRootCheck(op *Op) {
 		}
 	}
 	for _, p := range ps {
-		caches := []mast.NodeCache{nil}
+		// every perturbation: without cache, and twice with one fresh private cache (a rejected
+		// node must not be served from the cache on the retry); perturbations that leave the
+		// stored node intact: also with the warm shared cache
+		fresh := mast.NewNodeCache(64)
+		caches := []mast.NodeCache{nil, fresh, fresh}
+		hows := []string{"cold", "fresh-cache", "fresh-cache-retry"}
 		if p.cacheOK && warm != nil {
 			caches = append(caches, warm)
+			hows = append(hows, "warm-cache")
 		}
 		for ci, cache := range caches {
-			how := "cold"
-			if ci == 1 {
-				how = "warm-cache"
+			how := hows[ci]
+			if how == "warm-cache" {
 				w.st.Probes["perturb-with-warm-cache"]++
+			}
+			if how == "fresh-cache-retry" {
+				w.st.Probes["perturb-retried-with-same-cache"]++
 			}
 			w.st.OracleEvals++
 			w.st.Probes["perturb-"+firstSeg(p.name)]++
